@@ -5,6 +5,7 @@ func init() {
 		ID:    "C20",
 		Title: "Custom functions: unique registration, faithful argument/result conversion",
 		Rules: []string{
+			"R-EVALERR: every result of Eval is returned or error-tested before use",
 			"R-REGISTRY (current registry): the evaluation context of a render is built in the call, from the package's registry as it is then",
 			"R-DOTKW: the parse function registered for the dot, by cases on the abstract parser: an identifier and every keyword token is a name after the dot; a non-name is an error",
 			"R-OPTABLE (singletons): no object is compared by identity with the TRUE / FALSE / NIL singletons",
@@ -17,6 +18,7 @@ func init() {
 		NotDecided:  "TODO",
 		Assumptions: trustedBase,
 		Run: func(m *Model, s *Sink) {
+			m.RunEvalErr(s, "R-EVALERR")       // a failing argument fails the call: the function never sees an error as a value
 			m.RunFreshContext(s, "R-REGISTRY") // a function registered after a first rendering is callable in the next one
 			m.RunDotKeywords(s, "R-DOTKW")     // a custom function registered under a keyword name can be called
 			m.RunSingletons(s, "R-OPTABLE")    // a boolean receiver is converted by its value, not by identity with TRUE
